@@ -556,6 +556,7 @@ package bigbuff
 //@   ensures frame : unchanged(b.buffer, b.offset)
 
 //@ func (*Buffer).getAsync$1
+//@   maypanic
 //@   props C01 C05 C12
 //@   modular
 //@   # the consumer mutex is lent by consumer.Get, which keeps it until it has received from out
